@@ -334,7 +334,7 @@ theorem lost_owner_stopped {T : Tbl} (hT : Tbl.WF T) (al : Nat → Bool) (src na
 /-- the state of `Unregister(name)` after both tables are updated, before any listener is told: the
     invariant with the woken waiters exempt, and they are idle when the name is not 0 -/
 theorem unregNotify_mid {C W : List Nat} {s : State} (h : Inv C W none s) (src name : Nat) (list : List Nat)
-    (hf : Tbl.find s.notify (src, name) = some list) (hside : C = [] ∨ name = 0 ∨ 100 ≤ src) :
+    (hf : Tbl.find s.notify (src, name) = some list) (hside : C = [] ∨ name = 0 ∨ QSrc src name) :
     Inv C ((Tbl.purge s.alive s.waitFor src name list []).2.reverse ++ W) none
         ({ ({ s with waitFor := (Tbl.purge s.alive s.waitFor src name list []).1 } : State) with
           notify := Tbl.removeKey s.notify (src, name) }) ∧
@@ -365,7 +365,11 @@ theorem unregNotify_mid {C W : List Nat} {s : State} (h : Inv C W none s) (src n
       rcases hside with e | e | e
       · exact e
       · exact absurd e hn
-      · exact absurd (h.n.n1 src name e hne) hn
+      · exfalso
+        have hk := h.n.n1 src name e.1 hne
+        rcases e.2 with e2 | e2
+        · exact hk.1 e2
+        · exact hk.2 e2
     refine ⟨hC, ?_⟩
     intro l hl
     rw [List.mem_reverse] at hl
@@ -395,7 +399,7 @@ theorem unregNotify_mid {C W : List Nat} {s : State} (h : Inv C W none s) (src n
   exact ⟨h1, hidle1⟩
 
 theorem unregNotify_inv {fuel : Nat} (hswf : ISwf (stoppedWaitFor fuel)) (hsn : ISn (stoppedNotify fuel))
-    {C W : List Nat} {s : State} (h : Inv C W none s) (src name : Nat) (hside : C = [] ∨ name = 0 ∨ 100 ≤ src) :
+    {C W : List Nat} {s : State} (h : Inv C W none s) (src name : Nat) (hside : C = [] ∨ name = 0 ∨ QSrc src name) :
     Ok (unregNotify (stoppedWaitFor fuel) (stoppedNotify fuel) s src name)
       (Inv C W none (unregNotify (stoppedWaitFor fuel) (stoppedNotify fuel) s src name) ∧
         G s (unregNotify (stoppedWaitFor fuel) (stoppedNotify fuel) s src name)) := by
